@@ -270,7 +270,11 @@ class SReal:
         r = self._cmp(o, lambda a, b: a != b)
         return True if r is NotImplemented else r
 
-    __hash__ = None
+    def __hash__(self):
+        # a symbolic real used as a dict/set key: pinned to a model value by
+        # fork (a few values only; more make the obligation inconclusive)
+        v = cur().concretize_real(lift_real(self))
+        return hash(float(v)) if v.denominator != 1 else hash(int(v))
 
     def __bool__(self):
         return cur().branch(self.e != 0)
@@ -1034,6 +1038,53 @@ class Ctx:
         self.decisions.append(('c', excluded, val))
         self.assume(e == val)
         return int(val)
+
+    def concretize_real(self, e, cap=3):
+        """pin a Real term to one of its feasible values (fork per value, at
+        most `cap` values; beyond that the obligation is inconclusive)"""
+        v = val_of(e)
+        if v is not None:
+            return Fraction(v)
+        key = 'R' + z3.simplify(e).sexpr()
+        if key in self.floor_memo:
+            return self.floor_memo[key]
+        if self.pos < len(self.prefix):
+            ent = self.prefix[self.pos]
+            self.pos += 1
+            if ent[0] != 'r':
+                raise RuntimeError("non-deterministic replay (expected real, got %r)" % (ent,))
+            excluded, val = ent[1], ent[2]
+        else:
+            excluded, val = (), None
+            self.pos += 1
+        for x in excluded:
+            self.assume(e != rv(x))
+        if val is None:
+            # prefer a value that coincides with an earlier pinned value (hash/dict collisions are the interesting case)
+            r, m = z3.unknown, None
+            for prev in [p for k_, p in self.floor_memo.items() if k_.startswith('R')]:
+                r, m = self._check(e == rv(prev))
+                if r == z3.sat:
+                    break
+            if r != z3.sat:
+                r, m = self._check()
+            if r == z3.unsat:
+                raise Abort()
+            if r == z3.unknown:
+                raise Budget('unknown at real concretisation')
+            val = z3_to_py(m.eval(e, model_completion=True))
+            val = Fraction(val)
+            if len(excluded) + 1 >= cap:
+                self.ex.stats.reasons.append('concretisation cap hit (symbolic real used as a key)')
+                self.ex.cap_hit = True
+            else:
+                r2, _ = self._check(e != rv(val))
+                if r2 != z3.unsat:
+                    self.alternatives.append(self.decisions + [('r', excluded + (val,), None)])
+        self.decisions.append(('r', excluded, val))
+        self.assume(e == rv(val))
+        self.floor_memo[key] = val
+        return val
 
     def concretize_floor(self, e):
         """fork over the feasible values of floor(e) for a Real term e.  The
